@@ -227,6 +227,9 @@ type behMember struct {
 	Style  cfg.Style    `json:"style"`
 	Script fx.Script    `json:"script"`
 	Labels []string     `json:"labels,omitempty"`
+	// the existence rules switched off at build time (names supplied at run time through OverrideParam / OverrideService)
+	IgnoreP bool `json:"ignore_missing_params,omitempty"`
+	IgnoreS bool `json:"ignore_missing_services,omitempty"`
 }
 
 type behCase struct {
@@ -258,7 +261,7 @@ func behBatch(t tb, c behCase, nontrivial func(m behMember, merged cfg.Config) b
 	var ctxs []behContext
 	var conts []*fx.Container
 	for _, m := range c.Members {
-		spec, merged, err := memberSpec(c01Member{Files: m.Files, Style: m.Style})
+		spec, merged, err := memberSpec(c01Member{Files: m.Files, Style: m.Style, IgnoreP: m.IgnoreP, IgnoreS: m.IgnoreS})
 		if err != nil {
 			col.Exclude("serialiser-self-check")
 			continue
